@@ -24,6 +24,14 @@ pub struct Case {
     /// a record start moved onto (or next to, or so that the boundary falls inside its header) a block boundary
     #[serde(default)]
     pub align: Option<gen::Align>,
+    /// gzip with a stored first member sized so that the second member starts at this offset of the COMPRESSED
+    /// file (target - delta): block boundaries of a buffered reader under the decompressor
+    #[serde(default)]
+    pub gz_align: Option<(usize, i32)>,
+    /// after the file was read, the same path is overwritten with other records of the same sizes (every sequence
+    /// reversed) and read again
+    #[serde(default)]
+    pub reread: bool,
 }
 
 fn default_stem() -> String {
@@ -76,11 +84,40 @@ pub fn materialise(c: &Case) -> Vec<Rec> {
     recs
 }
 
-pub fn check_case(c: &Case) -> Verdict {
-    let mut v = Verdict::new();
-    let recs = materialise(c);
+pub fn check_case(c0: &Case) -> Verdict {
     let dir = crate::scratch_dir();
-    let path = io::write_input(dir.path(), &c.stem, &recs, &c.cont);
+    let mut c = c0.clone();
+    let mut recs = materialise(c0);
+    if let Some((target, delta)) = c0.gz_align {
+        // a stored gzip member of n bytes (n <= 65535) takes 10 + 5 + n + 8 bytes: the next member starts right after it
+        let want = (target as i64 - delta as i64 - 23).max(1) as usize;
+        let text_len = io::serialise_text(&recs, &c.cont).len();
+        if want < 65535 && text_len > want + 10 {
+            let mut members = vec![gen::GzMember { cut: 0, stored: true, exact: Some(want) }];
+            members.extend(c.cont.gz.clone().unwrap_or_default().into_iter().skip(1).take(2));
+            members.push(gen::GzMember { cut: 0, stored: false, exact: None });
+            c.cont.gz = Some(members);
+        }
+    }
+    let mut v = check_once(&c, &recs, dir.path());
+    if c0.reread && v.fail.is_none() {
+        for r in recs.iter_mut() {
+            r.seq.0.reverse();
+        }
+        let v2 = check_once(&c, &recs, dir.path());
+        v.class("same-path-read-again-after-rewrite");
+        if let Some(f) = v2.fail {
+            v.fail(format!("reread-{}", f.sig), format!("the same path overwritten with other records of the same sizes and read again in this process: {}", f.msg));
+        }
+    }
+    v.class_if(c0.gz_align.is_some() && c.cont.gz.as_ref().map(|m| m[0].exact.is_some()).unwrap_or(false), "gz-member-start-on-a-block-boundary");
+    v
+}
+
+fn check_once(c: &Case, recs: &[Rec], dir: &std::path::Path) -> Verdict {
+    let mut v = Verdict::new();
+    let recs = recs.to_vec();
+    let path = io::write_input(dir, &c.stem, &recs, &c.cont);
     let ps = io::path_str(&path);
     let n = recs.len();
     let wrapped = matches!(c.cont.format, Format::Fasta { wrap: Some(_) });
@@ -179,8 +216,8 @@ impl Leg for Files {
             bounds: [1, 60, 0],
             nuc_only: false,
         };
-        (gen::records_in_container(p), prop_oneof![5 => Just(None), 1 => (any::<u16>(), 0u8..60).prop_map(Some)], prop::sample::select(STEMS.to_vec()), prop_oneof![6 => Just(None), 2 => gen::align_strategy(131072).prop_map(Some), 1 => gen::align_strategy(2 << 20).prop_map(Some)], prop_oneof![10 => Just(None), 1 => any::<u16>().prop_map(Some)])
-            .prop_map(|((recs, mut cont), stretch, stem, align, noname)| {
+        (gen::records_in_container(p), prop_oneof![5 => Just(None), 1 => (any::<u16>(), 0u8..60).prop_map(Some)], prop::sample::select(STEMS.to_vec()), prop_oneof![6 => Just(None), 2 => gen::align_strategy(131072).prop_map(Some), 1 => gen::align_strategy(2 << 20).prop_map(Some)], prop_oneof![10 => Just(None), 1 => any::<u16>().prop_map(Some)], prop_oneof![8 => Just(None), 1 => (prop::sample::select(vec![8192usize, 16384, 24576, 32768, 65536 - 8192]), -2i32..=2).prop_map(Some)], prop::bool::weighted(0.15))
+            .prop_map(|((recs, mut cont), stretch, stem, align, noname, gz_align, reread)| {
                 // an aligned record start refers to the single-line text, LF or CRLF (it may still be compressed)
                 if align.is_some() {
                     cont.format = Format::Fasta { wrap: None };
@@ -195,7 +232,9 @@ impl Leg for Files {
                         recs[i].id = String::new();
                     }
                 }
-                Case { recs, cont, stretch: if align.is_some() { None } else { stretch }, stem: stem.to_string(), copies: 0, min_len: 0, align }
+                // the compressed-offset alignment needs enough text: the records are written several times
+                let copies = if gz_align.is_some() { 1 + 70_000 / (recs.iter().map(|r| r.seq.0.len() + 12).sum::<usize>().max(1)) } else { 0 };
+                Case { recs, cont, stretch: if align.is_some() { None } else { stretch }, stem: stem.to_string(), copies: copies.min(400), min_len: 0, align, gz_align, reread }
             })
             .boxed()
     }
@@ -231,7 +270,7 @@ impl Leg for Huge {
                 if min_len >= 10_000_000 {
                     recs.truncate(2);
                 }
-                Case { recs, cont, stretch: None, stem: stem.to_string(), copies, min_len, align: None }
+                Case { recs, cont, stretch: None, stem: stem.to_string(), copies, min_len, align: None, gz_align: None, reread: false }
             })
             .boxed()
     }
